@@ -22,7 +22,9 @@ func IsWorker() bool { return os.Getenv("VERIF_WORKER") != "" }
 // Serve runs the worker loop: one JSON case per line on stdin, one JSON result
 // per line on fd 3. It never returns.
 func Serve(handler func(in json.RawMessage) any) {
-	log.SetOutput(io.Discard)
+	if os.Getenv("VERIF_LOG") == "" {
+		log.SetOutput(io.Discard)
+	}
 	if v := os.Getenv("VERIF_WORKER_AS_GB"); v != "" {
 		if gb, err := strconv.Atoi(v); err == nil && gb > 0 {
 			lim := syscall.Rlimit{Cur: uint64(gb) << 30, Max: uint64(gb) << 30}
